@@ -194,7 +194,7 @@ func (b *Budget) Fits(total float64) bool {
 
 // FitsAfterFactor tells whether totals scaled by factor f=a*2^-shift still fit.
 func (b *Budget) FitsAfterFactor(total, f float64, shift int) bool {
-	return (total*f+1)*math.Ldexp(1, b.P+shift+1) <= math.Ldexp(1, 52) && (total+1)*math.Ldexp(1, b.P+shift+1) <= math.Ldexp(1, 52)
+	return (total*f+1)*math.Ldexp(1, b.P+shift+1) <= math.Ldexp(1, 52)
 }
 
 func (b *Budget) HalfQuantum() float64 { return math.Ldexp(1, -(b.P + 1)) }
